@@ -1016,7 +1016,7 @@ def run(ctx):
             r0 = base[rel][0]
             for run_ in base[rel]:
                 if not run_["input_same"]:
-                    ctx.finding(f"input-modified:{rel}", f"extracting {rel} changed the caller's BytesIO content",
+                    ctx.finding(f"input-modified:{Path(rel).suffix.lower()}", f"extracting {rel} changed the caller's BytesIO content",
                                 {"fixture": rel})
             # in-process repetition (every worker)
             for seed, res in results:
